@@ -356,7 +356,7 @@ def _newton_cg(
                 curv = float(vdot(g, hessp(pos, g)))
                 nhev += 1
                 grad_scaling = 1.0
-                dd = gam / curv * g
+                dd = gam / abs(curv) * g
         else:
             grad_scaling = 0.0
             nm = "N" if name is None else name
@@ -620,7 +620,7 @@ def _line_search_successive_halving(
         grad_scaling = jnp.where(do_reset, 1.0, grad_scaling)
         dd = cond(
             do_reset,
-            lambda x: vdot(g, g) / vdot(g, hessp(pos, g)) * g,
+            lambda x: vdot(g, g) / jnp.abs(vdot(g, hessp(pos, g))) * g,
             lambda x: x,
             dd,
         )
